@@ -46,6 +46,48 @@ def strip_shell_comments(text: str) -> str:
     return "".join(result)
 
 
+def blank_comments(text: str) -> str:
+    """Replace every comment by blanks (newlines are kept), preserving strings and rich text blocks.
+
+    The grammar ignores ``# ...``, ``// ...`` and ``/* ... */`` comments; the macro preprocessor runs
+    before the grammar and must not see them either: a commented-out macro definition is no
+    definition and a commented-out macro call is no call.
+    """
+    result = []
+    i = 0
+    n = len(text)
+
+    while i < n:
+        c = text[i]
+        if c in "\"'":
+            # string: copied as it is (an unterminated string runs to the end of the text)
+            j = text.find(c, i + 1)
+            j = n if j < 0 else j + 1
+            result.append(text[i:j])
+            i = j
+        elif text.startswith("-8<-", i):
+            # rich text block: copied as it is
+            j = text.find("->8-", i + 4)
+            j = n if j < 0 else j + 4
+            result.append(text[i:j])
+            i = j
+        elif c == "#" or text.startswith("//", i):
+            j = text.find("\n", i)
+            j = n if j < 0 else j
+            result.append(" " * (j - i))
+            i = j
+        elif text.startswith("/*", i):
+            j = text.find("*/", i + 2)
+            j = n if j < 0 else j + 2
+            result.append("".join(ch if ch == "\n" else " " for ch in text[i:j]))
+            i = j
+        else:
+            result.append(c)
+            i += 1
+
+    return "".join(result)
+
+
 class MacroExpansionError(ValueError):
     """Raised when macro expansion grows the text beyond MacroProcessor.MAX_EXPANDED_SIZE.
 
@@ -86,6 +128,9 @@ class MacroProcessor:
         Returns:
             The processed content with macros expanded
         """
+        # Comments are not part of the text the preprocessor works on
+        content = blank_comments(content)
+
         # First pass: extract macro definitions
         content = self._extract_macros(content)
 
